@@ -24,7 +24,7 @@ def one(ID):
         env = dict(os.environ, PYTHONPATH=wt)
         env.pop("VSG_VERIF", None)
         out = tempfile.mktemp(suffix=".xml", dir="/var/tmp")
-        cmd = BASE["cmd"].replace("cd /repo", f"cd {wt}").replace("<file>", out) + f" -n {NX}"
+        cmd = BASE["cmd"].replace("cd /repo", f"cd {wt}").replace("<file>", out) + f" -n {NX}" + (" --no-cov" if os.environ.get("NOCOV", "1") == "1" else "")
         run(cmd, env=env)
         passed = set()
         for tc in ET.parse(out).getroot().iter("testcase"):
@@ -53,7 +53,7 @@ with ThreadPoolExecutor(PAR) as ex:
         m = json.load(open(f))
         c = m.setdefault("confirmed_by_me", {})
         c["suite_run"] = True
-        c["suite"] = f"baseline test command (with -n {NX}) in a scratch worktree with the change applied, PYTHONPATH=<worktree>: {len(BASE['stable_pass'])} stable tests, {len(res['missing'])} not passing"
+        c["suite"] = f"baseline test command (with -n {NX}" + (" --no-cov" if os.environ.get("NOCOV", "1") == "1" else "") + ") in a scratch worktree with the change applied, PYTHONPATH=<worktree>: {len(BASE['stable_pass'])} stable tests, {len(res['missing'])} not passing"
         c["suite_stable_pass_missing"] = res["missing"][:10]
         json.dump(m, open(f, "w"), indent=1)
         print(ID, "missing", len(res["missing"]), res["missing"][:3], flush=True)
